@@ -140,3 +140,80 @@ Proof.
     replace (be_val init * 256) with (be_val init * 128 * 2) by ring.
     rewrite Z.mod_add by lia. Z.div_mod_to_equations. lia.
 Qed.
+
+(* ================================================================ *)
+(* 3. what REAL2double reads from octets of that shape               *)
+
+Lemma two53_lt_two1024 : two53 < two1024.
+Proof. vm_compute. reflexivity. Qed.
+
+Lemma rnd53_small x : x < two53 -> rnd53 x = x.
+Proof. intros H. unfold rnd53. replace (x <? two53) with true by lia. reflexivity. Qed.
+
+Lemma mant_fold l : bytes_ok l -> forall v, 0 <= v ->
+  v * 256 ^ zlen l + be_val l < two53 ->
+  fold_left mant_step l (MFin v) = MFin (v * 256 ^ zlen l + be_val l).
+Proof.
+  induction 1 as [|b tl Hb Htl IH]; intros v Hv Hlt; cbn [fold_left be_val] in *.
+  - unfold zlen; simpl. f_equal. lia.
+  - rewrite pow256_zlen_cons in *. unfold byte_ok in Hb.
+    pose proof (pow256_pos (length tl)) as HP. fold (zlen tl) in HP.
+    pose proof (be_val_bound tl Htl) as HV.
+    set (P := 256 ^ zlen tl) in *. set (V := be_val tl) in *.
+    assert (HX : v * 256 + b < two53) by nia.
+    cbn [mant_step].
+    pose proof two53_lt_two1024 as H1024.
+    replace (two1024 <=? v * 256) with false by lia.
+    rewrite rnd53_small by exact HX.
+    rewrite IH by nia. f_equal. ring.
+Qed.
+
+Lemma firstn_app_len {A} (l1 l2 : list A) : firstn (length l1) (l1 ++ l2) = l1.
+Proof. induction l1 as [|a l IH]; cbn [length app firstn]; [reflexivity|]. now rewrite IH. Qed.
+
+Lemma skipn_app_len {A} (l1 l2 : list A) : skipn (length l1) (l1 ++ l2) = l2.
+Proof. induction l1 as [|a l IH]; cbn [length app skipn]; [reflexivity|exact IH]. Qed.
+
+Lemma R2d_binary s eb mant :
+  0 <= s <= 1 -> 1 <= zlen eb <= 3 -> bytes_ok eb -> bytes_ok mant -> be_val mant < two53 ->
+  REAL2double ((128 + 64 * s + (zlen eb - 1)) :: eb ++ mant) =
+  match ldexp_bits (be_val mant) (twos_value eb) with
+  | None => RErange
+  | Some b => ROk (s * two63 + b)
+  end.
+Proof.
+  intros Hs Hlen Hok_eb Hok_m Hlt.
+  destruct eb as [|e0 eb']; [unfold zlen in Hlen; simpl in Hlen; lia|].
+  rewrite zlen_cons in *. pose proof (zlen_nonneg eb') as Hl0.
+  inversion Hok_eb as [|? ? He0 Hok_eb']; subst. unfold byte_ok in He0.
+  replace (zlen eb' + 1 - 1) with (zlen eb') by lia.
+  set (hdr := 128 + 64 * s + zlen eb').
+  assert (H64 : hdr / 64 = 2 + s) by (unfold hdr; Z.div_mod_to_equations; lia).
+  assert (H16 : (hdr / 16) mod 4 = 0) by (unfold hdr; Z.div_mod_to_equations; lia).
+  assert (H4 : (hdr / 4) mod 4 = 0) by (unfold hdr; Z.div_mod_to_equations; lia).
+  assert (Hel : hdr mod 4 = zlen eb') by (unfold hdr; Z.div_mod_to_equations; lia).
+  assert (Hsz : zlen (hdr :: (e0 :: eb') ++ mant) = 2 + zlen eb' + zlen mant).
+  { rewrite zlen_cons, zlen_app, zlen_cons. lia. }
+  pose proof (zlen_nonneg mant) as Hm0.
+  unfold REAL2double. cbv zeta. rewrite Hsz, H64, H16, H4, Hel.
+  replace (2 + s =? 1) with false by lia.
+  replace (2 + s =? 0) with false by lia.
+  replace (0 =? 3) with false by reflexivity.
+  replace (0 =? 0) with true by reflexivity.
+  replace (2 + zlen eb' + zlen mant <=? 1 + zlen eb') with false by lia.
+  replace (zlen eb' =? 3) with false by lia.
+  cbn [app].
+  replace (3 <=? zlen eb') with false by lia.
+  replace (Z.to_nat (zlen eb')) with (length eb') by (unfold zlen; lia).
+  rewrite firstn_app_len, skipn_app_len.
+  rewrite fold_be_val.
+  pose proof (mant_fold mant Hok_m 0 ltac:(lia) ltac:(lia)) as Hmf.
+  rewrite Hmf. rewrite Z.mul_0_l, Z.add_0_l.
+  rewrite Z.mul_1_r, Z.add_0_r.
+  replace ((2 + s) mod 2) with s by (Z.div_mod_to_equations; lia).
+  replace ((if 128 <=? e0 then e0 - 256 else e0) * 256 ^ zlen eb' + be_val eb')
+    with (twos_value (e0 :: eb')).
+  2:{ unfold twos_value. cbn [be_val]. rewrite pow256_zlen_cons.
+      destruct (128 <=? e0); ring. }
+  reflexivity.
+Qed.
